@@ -138,6 +138,7 @@ type env struct {
 	readErrs bool
 	idGen   int
 	useGen  bool
+	ackQ    bool // in-memory queues are bound as user queues that also implement IAcknowledgeable
 	family  string
 	params  map[string]int
 	noFinalDrain bool // the scenario ends without processing everything (monitors must not expect completion)
@@ -386,9 +387,9 @@ func (e *env) bind(kind int) int {
 	case kPlain:
 		switch kind {
 		case qFifo:
-			q = qPlainF{e.wPlain.WithQueue(newRecQ[iJob[int]]())}
+			q = qPlainF{e.wPlain.WithQueue(newUserQ[iJob[int]](e.ackQ))}
 		case qPrio:
-			q = qPlainP{e.wPlain.WithPriorityQueue(newRecPQ[iJob[int]]())}
+			q = qPlainP{e.wPlain.WithPriorityQueue(newUserPQ[iJob[int]](e.ackQ))}
 		case qPersist:
 			ad := newRecAdapter(false, len(e.adapters))
 			e.adapters = append(e.adapters, ad)
@@ -412,17 +413,17 @@ func (e *env) bind(kind int) int {
 		}
 	case kErr:
 		if kind == qPrio {
-			q = qErrP{e.wErr.WithPriorityQueue(newRecPQ[iErrorJob[int]]())}
+			q = qErrP{e.wErr.WithPriorityQueue(newUserPQ[iErrorJob[int]](e.ackQ))}
 		} else {
 			kind = qFifo
-			q = qErrF{e.wErr.WithQueue(newRecQ[iErrorJob[int]]())}
+			q = qErrF{e.wErr.WithQueue(newUserQ[iErrorJob[int]](e.ackQ))}
 		}
 	case kResult:
 		if kind == qPrio {
-			q = qResP{e.wRes.WithPriorityQueue(newRecPQ[iResultJob[int, int]]())}
+			q = qResP{e.wRes.WithPriorityQueue(newUserPQ[iResultJob[int, int]](e.ackQ))}
 		} else {
 			kind = qFifo
-			q = qResF{e.wRes.WithQueue(newRecQ[iResultJob[int, int]]())}
+			q = qResF{e.wRes.WithQueue(newUserQ[iResultJob[int, int]](e.ackQ))}
 		}
 	}
 	e.qs = append(e.qs, q)
@@ -492,10 +493,12 @@ func (e *env) addAll(q int, specs []itemSpec) *batch {
 		vt.Mark("batch:wgc", g.wgc, strconv.Itoa(b.idx))
 		vt.Mark("batch:resp", g.Response, strconv.Itoa(b.idx))
 		vt.Mark("batch:chan", g.Response.Read(), strconv.Itoa(b.idx))
+		vt.Mark("batch:cap", g.wgc, strconv.Itoa(cap(g.Response.Read())))
 	case *errorGroupJob[int]:
 		vt.Mark("batch:wgc", g.wgc, strconv.Itoa(b.idx))
 		vt.Mark("batch:resp", g.Response, strconv.Itoa(b.idx))
 		vt.Mark("batch:chan", g.Response.Read(), strconv.Itoa(b.idx))
+		vt.Mark("batch:cap", g.wgc, strconv.Itoa(cap(g.Response.Read())))
 	case *groupJob[int]:
 		vt.Mark("batch:wgc", g.wgc, strconv.Itoa(b.idx))
 	}
